@@ -638,3 +638,49 @@ def pseudo_nosite_replay(inputs, clause):
 
 
 pseudo_tags_nosite.replay = pseudo_nosite_replay
+
+
+# ------------------------------------------------------------------------------ get_base_confidence_dict: observation -> confidence
+# every aligned base of every read is one observation of its base at its reference position with confidence 1 - 10^(-Q/10)
+# (10^x uninterpreted: what matters is that the confidence is that function of the base's own quality, for every Q)
+def conf_setup(eng):
+    from pyvc import nparr
+    eng.spec_env['POW10'] = Builtin('POW10', lambda e, a, k, n: Sym(nparr.POW10(z3.ToReal(a[0].z) if a[0].t == INT else a[0].z), __import__('pyvc.engine', fromlist=['REAL']).REAL))
+    QF = z3.Function('query_quality_at', z3.IntSort(), z3.IntSort())
+    pairs = []
+    for i in range(2):
+        q, r = named(INT, 'qpos%d' % i), named(INT, 'refpos%d' % i)
+        eng.assume(z3.And(q.z >= 0, r.z >= 0))
+        pairs.append((q, r))
+    eng.assume(z3.And(pairs[0][0].z < pairs[1][0].z, pairs[0][1].z < pairs[1][1].z))
+    seq = named(STR, 'read_sequence')
+    eng.assume(z3.Length(seq.z) > pairs[1][0].z)
+    eng.spec_env['PAIRS'], eng.spec_env['SEQ'] = pairs, seq
+    eng.spec_env['QUAL'] = Builtin('QUAL', lambda e, a, k, n: Sym(QF(a[0].z), INT))
+
+    class Quals:
+        def vc_getitem(self, e, idx, node=None):
+            v = Sym(QF(idx.z if isinstance(idx, Sym) else z3.IntVal(idx)), INT)
+            e.assume(v.z >= 0)
+            return v
+    rd = stubs.make_read(eng, 'read', tags={}, closed=True, fields={'seq': lambda e, n: seq, 'query_qualities': lambda e, n: Quals()})
+    stubs.STUBS['AlignedSegment']['methods']['get_aligned_pairs'] = lambda e, o, **k: list(pairs)
+    eng.loader.call_hooks[Q + 'iter_reads'] = lambda e, f, a, k, n: [rd]
+
+
+confidence = Contract(
+    PROP, FM + '::Molecule.get_base_confidence_dict', name='Molecule.get_base_confidence_dict[1 read, 2 aligned bases]',
+    params={'self': ('obj', 'Molecule', {'chromosome': ('const', 'chr1')}, FM)},
+    setup=conf_setup,
+    ensures={
+        'one_observation_per_aligned_base_at_its_reference_position':
+            'len(result) == 2 and all(any([k[0] == "chr1" and k[1] == PAIRS[i][1] for k in result]) for i in range(2))',
+        'confidence_is_one_minus_ten_to_minus_q_over_ten':
+            'all(implies(k[1] == PAIRS[i][1], len(result[k]) == 1 and all(b == SEQ[PAIRS[i][0]] and len(result[k][b]) == 1 and '
+            'result[k][b][0] == 1 - POW10(-QUAL(PAIRS[i][0]) / 10) for b in result[k])) for k in result for i in range(2))',
+    },
+    raises={},
+    bounded='one read with two aligned bases (symbolic positions, bases and qualities)',
+    assumptions=['10**x is an uninterpreted function of x (no floating point); pysam get_aligned_pairs / query_qualities through stubs'],
+)
+UNITS.append(confidence)
